@@ -128,18 +128,28 @@ structure Cut (α : Type) where
   v0 : α
   v1 : α
 
-def cutOf (t : M9 α) (seed : Int) (npart : Nat) (dir : Int) (w : World (List (Rec α))) : Cut α :=
-  let pts : World (List (V3 α)) := w.map fun l => l.map fun r => ax t r.p
-  let d : Nat := if dir < 0 || 2 < dir then splitDirT pts else dir.toNat
-  let rs : Status × α := splitRatio (npart : Int)
-  let ratio := rs.2
+/-- the two positions handed to `ref_search_selection`:
+    `(REF_LONG)((REF_DBL)total * ratio0)` and `(REF_LONG)((REF_DBL)total * ratio1)` -/
+def cutPos (seed : Int) (npart : Nat) (total : Int) : Int × Int :=
+  let ratio : α := (splitRatio (α := α) (npart : Int)).2
   let ratio0 := ratio *. ratioShift seed
   let ratio1 := (Scalar.ofInt 1 : α) -. (ratio -. ratio0)
-  let xs : World (List α) := pts.map fun l => l.map (coordOf d)
+  (RcbScalar.truncInt ((Scalar.ofInt total : α) *. ratio0), RcbScalar.truncInt ((Scalar.ofInt total : α) *. ratio1))
+
+/-- `x[i] = transformed[dir]` of every record of every rank -/
+def cutCoords (t : M9 α) (d : Nat) (w : World (List (Rec α))) : World (List α) :=
+  w.map fun l => l.map fun r => coordOf d (ax t r.p)
+
+/-- the direction used at this level: `ref_migrate_split_dir` when `dir` is not 0, 1 or 2 -/
+def cutDir (t : M9 α) (dir : Int) (w : World (List (Rec α))) : Nat :=
+  if dir < 0 || 2 < dir then splitDirT (w.map fun l => l.map fun r => ax t r.p) else dir.toNat
+
+def cutOf (t : M9 α) (seed : Int) (npart : Nat) (dir : Int) (w : World (List (Rec α))) : Cut α :=
+  let d : Nat := cutDir t dir w
+  let xs : World (List α) := cutCoords t d w
   let total : Int := isum (w.map fun l => (l.length : Int))
-  let pos0 : Int := RcbScalar.truncInt ((Scalar.ofInt total : α) *. ratio0)
-  let pos1 : Int := RcbScalar.truncInt ((Scalar.ofInt total : α) *. ratio1)
-  ⟨rs.1, d, selection xs pos0, selection xs pos1⟩
+  let pos := cutPos (α := α) seed npart total
+  ⟨(splitRatio (α := α) (npart : Int)).1, d, selection xs pos.1, selection xs pos.2⟩
 
 /-- the test of the copy loop: `x[i] < value0 || value1 < x[i]` → half 0 -/
 def inOuter (t : M9 α) (c : Cut α) (r : Rec α) : Bool :=
